@@ -280,6 +280,41 @@ func runC01(c *fw.Ctx) {
 		})
 	}
 
+	// ---------- sibling Concats over one Concat result, consumed by rules that re-read their operand at back-propagation time:
+	// s = [a; b], h1 = [s; c], z1 = h1^2, h2 = [s; d], z2 = exp(h2) or log / sin, root = z1 + z2 ----------
+	for i := 0; i < c.Pick(80, 1600); i++ {
+		c.Case(func(k *fw.K) {
+			r := k.Rng
+			base := RandShape(r, 1, 3, 3)
+			dim := r.Intn(len(base))
+			part := func(n int) ref.Instr {
+				sh := ref.CopyInts(base)
+				sh[dim] = n
+				v := Shuffled(r, UniquePos(r, sh, 0.3, 1.5))
+				return ref.Instr{Op: "leaf", Shape: sh, Data: v.Data, Tracked: r.Intn(4) > 0}
+			}
+			tail := 1 + r.Intn(2)
+			p := ref.Prog{part(2), part(1), part(tail), part(tail),
+				{Op: "concat", In: []int{0, 1}, Dim: dim},
+				{Op: "concat", In: []int{4, 2}, Dim: dim},
+				{Op: []string{"pow", "log", "sin"}[r.Intn(3)], In: []int{5}, F: 2},
+				{Op: "concat", In: []int{4, 3}, Dim: dim},
+				{Op: []string{"exp", "pow", "tanh"}[r.Intn(3)], In: []int{7}, F: 3},
+				{Op: "add", In: []int{6, 8}},
+			}
+			p[2].Tracked = true
+			vals, err := p.Eval()
+			if err != nil {
+				k.Failf("harness: %v", err)
+				return
+			}
+			k.Case = c01case{Family: "sibling Concats over one Concat result", Prog: p}
+			k.Key("sibling-concats/%s/%d/%d/%s/%s", shapeKey(base), dim, tail, p[6].Op, p[8].Op)
+			k.Count("graphs_with_sibling_concats", 1)
+			c01OneRoot(k, p, vals, len(p)-1)
+		})
+	}
+
 	// ---------- selections between neighbouring doubles inside a reconvergent graph: r = ElMax(a, b) * w + ElMin(a, b) + MaxAlong(c) ----------
 	for i := 0; i < c.Pick(60, 1200); i++ {
 		c.Case(func(k *fw.K) {
